@@ -147,9 +147,7 @@ impl MonoMidiReceiver {
                     CC_ALL_CONTROLLERS_OFF => self.reset_controllers(),
                     CC_ALL_NOTES_OFF => {
                         self.held_down_notes.clear();
-                        self.gate = false;
-                        self.rising_gate = false;
-                        self.falling_gate = false;
+                        self.turn_gate_off();
                     }
                     _ => (), // ignore all other MIDI CC messages
                 }
@@ -182,13 +180,20 @@ impl MonoMidiReceiver {
         self.held_down_notes.retain(|n| *n != note);
 
         if self.held_down_notes.is_empty() {
-            self.gate = false;
-            self.rising_gate = false;
-            self.falling_gate = true;
+            self.turn_gate_off();
         } else {
             // we know that there is at least one element in the vec
             self.note_num = self.choose_next_note();
         }
+    }
+
+    /// `mr.turn_gate_off()` sets the gate low, a falling gate is only triggered if the gate was high before
+    fn turn_gate_off(&mut self) {
+        if self.gate {
+            self.falling_gate = true;
+        }
+        self.gate = false;
+        self.rising_gate = false;
     }
 
     /// `mr.choose_next_note()` is the next MIDI note to use based on the notes currently held down and note priority
